@@ -27,7 +27,7 @@ package ratelimit
 //@   ensures ok: bucketOK(tb)
 //@   ensures refreshed: refreshed(tb, kdiv(lastclock - old(tb.lastRefresh), old(tb.timePerToken)))
 //@   ensures potential_not_increased: tb.availableTokens * tb.timePerToken + (lastclock - tb.lastRefresh) <= old(tb.availableTokens) * tb.timePerToken + (lastclock - old(tb.lastRefresh))
-//@   ensures next_token_pending: lastclock - tb.lastRefresh < tb.timePerToken || tb.availableTokens == tb.burst
+//@   ensures next_token_pending: lastclock - tb.lastRefresh < tb.timePerToken
 //@   ensures refresh_monotone: old(tb.lastRefresh) <= tb.lastRefresh && tb.lastRefresh <= lastclock
 
 //@ func (*tokenBucket).consume
@@ -190,3 +190,31 @@ package ratelimit
 //@   ensures too_big_is_plain_error: result != nil && !istype(result, "*MaxRateError") ==> (exists p int :: in(p, setOf(tl, source).buckets) && amount > setOf(tl, source).buckets[p].burst)
 //@   ensures delay_error: calls(Consume) == 1 && callres(Consume, 0, 1) == nil && callres(Consume, 0, 0) > 0 ==> istype(result, "*MaxRateError") && asref(payload(result), "*MaxRateError").Delay == callres(Consume, 0, 0)
 //@   ensures decision_is_the_buckets: (result == nil) <==> (calls(Consume) == 1 && callres(Consume, 0, 1) == nil && callres(Consume, 0, 0) <= 0)
+
+// ---- bridge lemmas (checked by the solvers; they connect the per-call contracts to the interval statement) ----
+// Psi = G*theta + avail*theta - lastRefresh never increases along contract steps (G = amount admitted so far).
+
+//@ lemma c03_admit_step: forall G int, n int, a int, lr int, a2 int, lr2 int, theta int :: theta >= 1 && n >= 0 && a2 * theta - lr2 <= a * theta - lr ==> (G + n) * theta + (a2 - n) * theta - lr2 <= G * theta + a * theta - lr
+//@ lemma c03_interval_bound: forall G int, a1 int, lr1 int, a2 int, lr2 int, t1 int, t2 int, theta int, burst int :: theta >= 1 && 0 <= a1 && a1 <= burst && 0 <= a2 && lr2 <= t2 && lr1 <= t1 && t1 - lr1 < theta && t1 <= t2 && G * theta + a2 * theta - lr2 <= a1 * theta - lr1 ==> G * theta < burst * theta + (t2 - t1) + theta
+//@ lemma c03_fresh_after_idle: forall a int, lr int, now int, theta int, burst int :: theta >= 1 && 0 <= a && now - lr >= burst * theta ==> burst * theta - now <= a * theta - lr
+//@ lemma c03_ttl_covers_refill: forall period int, average int, burst int :: period >= 1000000000 && average >= 1 && 1 <= burst && burst <= 5 * average ==> burst * (period / average) <= ((period / 1000000000) * 10) * 1000000000
+//@ lemma c13_delay_sufficient: forall a int, n int, burst int, theta int, lr int, t int, t2 int, k int :: theta >= 1 && 0 <= a && a < n && n <= burst && lr <= t && t2 >= t + (n - a) * theta && k * theta <= t2 - lr && t2 - lr < (k + 1) * theta ==> min(burst, a + k) >= n
+//@ lemma c13_idle_refill: forall a int, burst int, theta int, lr int, t2 int, k int :: theta >= 1 && 0 <= a && a <= burst && t2 - lr >= burst * theta && k * theta <= t2 - lr && t2 - lr < (k + 1) * theta ==> min(burst, a + k) == burst
+
+// ---- request path ---------------------------------------------------------------------------
+
+//@ func (*TokenLimiter).ServeHTTP
+//@   props C13 C14 C20
+//@   requires req != nil && ratesOK(tl.defaultRates)
+//@   modifies everything
+//@   ensures one_outcome: calls(tl.next.ServeHTTP) + calls(tl.errHandler.ServeHTTP) == 1
+//@   ensures passed_only_if_admitted: calls(tl.next.ServeHTTP) == 1 ==> calls(consumeRates) == 1 && callres(consumeRates, 0, 0) == nil
+//@   ensures refused_gets_the_limiter_error: calls(consumeRates) == 1 && callres(consumeRates, 0, 0) != nil ==> calls(tl.errHandler.ServeHTTP) == 1 && callarg(tl.errHandler.ServeHTTP, 0, 2) == callres(consumeRates, 0, 0)
+
+//@ func (*RateErrHandler).ServeHTTP
+//@   props C13 C20
+//@   requires w != nil && (istype(err, "*MaxRateError") ==> payload(err) != 0)
+//@   modifies everything
+//@   ensures rate_error_is_429: istype(err, "*MaxRateError") ==> calls(w.WriteHeader) == 1 && callarg(w.WriteHeader, 0, 0) == 429 && calls(w.Write) == 1 && before(w.WriteHeader, w.Write)
+//@   ensures other_errors_delegated: !istype(err, "*MaxRateError") ==> calls(w.WriteHeader) == 0 && calls(DefaultHandler.ServeHTTP) == 1
+//@   at_call w.WriteHeader advertised_wait: header(callres(w.Header, 1, 0), "X-Retry-In") == durstring(asref(payload(err), "*MaxRateError").Delay)
